@@ -438,6 +438,18 @@ func (fr *frame) conv(tDst, tSrc types.Type, x Value) Value {
 			if uSrc.Info()&types.IsUnsigned != 0 {
 				return c.UToF(t, s)
 			}
+			if t.Op == sym.OpNeg && !t.IsConst() {
+				// float(-x) = -float(x) unless x == MinInt (sign symmetry of RNE);
+				// written as an exact ite so that negations can be normalised outward.
+				x := t.Args[0]
+				minInt := c.BVC(x.Sort.W, uint64(1)<<uint(x.Sort.W-1))
+				isMin := c.Eq(x, minInt)
+				neg := c.FNeg(c.SToF(x, s))
+				if in.mustBeFalse(isMin) {
+					return neg
+				}
+				return c.Ite(isMin, c.SToF(minInt, s), neg)
+			}
 			return c.SToF(t, s)
 		case uSrc.Info()&types.IsFloat != 0 && d.Info()&types.IsInteger != 0:
 			return in.floatToInt(t, d)
